@@ -19,12 +19,12 @@ class CbmcOb(Ob):
     """One CBMC query: harness function `func` of the C files `files` (compiled by goto-cc with `defines`)."""
     kind = 'cbmc'
     def __init__(s, oid, files, func, *, defines=(), incs=(), backends=('minisat',), unwind=None, timeout=60, extra=(),
-                 replay_link=(), replay_files=None, replay_defines=(), witness=True, bounds='', engine='B', mode='exact', **kw):
+                 replay_link=(), replay_files=None, replay_defines=(), witness=True, bounds='', engine='B', mode='exact', partial_loops=False, **kw):
         Ob.__init__(s, oid, **kw)
         s.files = tuple(files); s.func = func; s.defines = tuple(defines); s.incs = tuple(incs)
         s.backends = tuple(backends); s.unwind = unwind; s.timeout = timeout; s.extra = tuple(extra)
         s.replay_link = tuple(replay_link); s.replay_files = replay_files; s.replay_defines = tuple(replay_defines)
-        s.witness = witness; s.bounds = bounds; s.engine = engine; s.mode = mode
+        s.witness = witness; s.bounds = bounds; s.engine = engine; s.mode = mode; s.partial_loops = partial_loops
 
 
 class SymOb(Ob):
@@ -69,11 +69,11 @@ class Check:
             wres = [None]
             def wit():
                 gbw = s.gotobin(ob, True)
-                wres[0] = C.cbmc(gbw, ob.func, ob.backends, ob.unwind, ob.timeout, ob.extra)
+                wres[0] = C.cbmc(gbw, ob.func, ob.backends, ob.unwind, ob.timeout, ob.extra, partial_loops=ob.partial_loops)
             th = None
             if ob.witness:
                 th = threading.Thread(target=wit); th.start()
-            r = C.cbmc(gb, ob.func, ob.backends, ob.unwind, ob.timeout, ob.extra)
+            r = C.cbmc(gb, ob.func, ob.backends, ob.unwind, ob.timeout, ob.extra, partial_loops=ob.partial_loops)
             if th: th.join()
             res = {'verdict': r['verdict'], 'backend': r.get('backend'), 'time': r.get('wall'), 'assertions': r.get('assertions', 0), 'failed': r.get('failed', [])[:6]}
             if r['verdict'] == 'holds':
